@@ -458,8 +458,9 @@ def _observe(m):
 
 def _scan(arg):
     from pybufrkit.decoder import Decoder, generate_bufr_message
-    from sim.observe import exc_info, quiet_std
+    from sim.observe import exc_info, quiet_std, install_step_budget
     quiet_std()
+    install_step_budget()
     stream = bytes.fromhex(arg['stream'])
     dec = Decoder(compiled_template_cache_max=arg.get('compiled'))
     out = {'deliveries': [], 'exc': None}
@@ -579,6 +580,8 @@ def oracle(plan, tr):
     out = []
     if fam == 'c08-def':
         ref = tr['ref']
+        if ref.get('budget_exceeded'):
+            return out
         a = [(d['b'], d['n'], _h(json.dumps([d['vals'], d['ids'], d['attrs']]))) for d in tr['deliveries']]
         b = [(d['b'], d['n'], _h(json.dumps([d['vals'], d['ids'], d['attrs']]))) for d in ref['deliveries']]
         ea = (tr['exc'] or {}).get('type')
